@@ -61,6 +61,9 @@ def run_shards(prop, specs, nworkers, seed, default_timeout, acc, verbose=False)
     pending = list(enumerate(specs))
     running = []
     env = worker_env(seed)
+    # workers keep their scratch (profiles, key stores, crash copies) below the driver's own directory, so that whatever a
+    # killed worker leaves behind goes away with it
+    env["VERIF_SCRATCH_PARENT"] = workdir
     failed = 0
     try:
         while pending or running:
